@@ -108,6 +108,7 @@ func (f *c49Frame) calls() (n int) {
 type c49Gen struct {
 	http     bool // HTTP mode: no subscriptions, block allowed when a timeout is set
 	timeout  bool
+	single   bool // the entry being drawn is a whole (non-batch) frame
 	subsMade *int
 }
 
@@ -197,6 +198,14 @@ func c49Msg(id, method, params string) string {
 // genEntry draws one frame entry. callIDs are the ids usable for calls (and for the echoed
 // ids of invalid entries) in this frame; forceCall/forceID pin the anchor call of a batch.
 func (g *c49Gen) genEntry(rt *rapid.T, callIDs []string, forceCall bool, forceID string) c49Entry {
+	e := g.genEntry0(rt, callIDs, forceCall, forceID)
+	if g.single && e.label == "inv:array" { // a top-level array is a batch, not an invalid single message
+		e.raw, e.label = `7`, "inv:number"
+	}
+	return e
+}
+
+func (g *c49Gen) genEntry0(rt *rapid.T, callIDs []string, forceCall bool, forceID string) c49Entry {
 	kind := "call"
 	if !forceCall {
 		kind = rapid.SampledFrom([]string{"call", "call", "call", "call", "call", "call", "notif", "notif", "resp", "invalid", "invalid"}).Draw(rt, "entryKind")
@@ -246,9 +255,9 @@ func (g *c49Gen) genEntry(rt *rapid.T, callIDs []string, forceCall bool, forceID
 	case "array":
 		return c49Entry{raw: `[1,2]`, kind: "invalid", label: "inv:" + shape}
 	case "idobject":
-		return c49Entry{raw: `{"jsonrpc":"2.0","id":{"a":1},"method":"test_echo"}`, kind: "invalid", label: "inv:" + shape}
+		return c49Entry{raw: `{"jsonrpc":"2.0","id":{"a":1},"method":"test_echo"}`, kind: "invalid", id: `{"a":1}`, label: "inv:" + shape}
 	default: // idarray
-		return c49Entry{raw: `{"jsonrpc":"2.0","id":[1],"method":"test_echo"}`, kind: "invalid", label: "inv:" + shape}
+		return c49Entry{raw: `{"jsonrpc":"2.0","id":[1],"method":"test_echo"}`, kind: "invalid", id: `[1]`, label: "inv:" + shape}
 	}
 }
 
@@ -370,16 +379,22 @@ func c49Transcript(frames []*c49Frame, writes []c49Write) string {
 // c49CheckBatch checks the objects written for a within-limit batch. exact=false (abrupt
 // close) only checks upper bounds.
 func c49CheckBatch(f *c49Frame, objs []c49Obj, exact bool) error {
-	calls, slack := map[string]int{}, map[string]int{}
+	calls, slack, invalid := map[string]int{}, map[string]int{}, 0
 	for _, e := range f.entries {
 		switch {
 		case e.kind == "call":
 			calls[e.id]++
-		case e.kind == "invalid" && e.echoID:
-			slack[e.id]++ // may be answered by an error echoing the id
 		case e.kind == "invalid":
-			slack["null"]++ // may be answered by an error with null/absent id
+			// may be answered by one error object, echoing the entry's id or with null/absent id
+			invalid++
+			slack["null"]++
+			if e.id != "" && e.id != "null" {
+				slack[e.id]++
+			}
 		}
+	}
+	if ncalls := f.calls(); len(objs) > ncalls+invalid {
+		return fmt.Errorf("%d response objects for %d calls and %d invalid entries", len(objs), ncalls, invalid)
 	}
 	out := map[string]int{}
 	for _, o := range objs {
@@ -487,7 +502,9 @@ func TestVerifC49Conn(t *testing.T) {
 			f := &c49Frame{}
 			switch shape := rapid.SampledFrom([]string{"single", "single", "single", "batch", "batch", "batch", "empty"}).Draw(rt, "frameShape"); shape {
 			case "single":
+				g.single = true
 				e := g.genEntry(rt, singleIDs, false, "")
+				g.single = false
 				if e.kind == "invalid" && e.echoID { // keep the echoed ids of invalid frames apart from call ids
 					e.raw = strings.Replace(e.raw, `"id":`+e.id, `"id":901`, 1)
 					e.id = `901`
@@ -586,10 +603,11 @@ func TestVerifC49Conn(t *testing.T) {
 				switch {
 				case e.kind == "call":
 					singleCalls[e.id]++
-				case e.kind == "invalid" && e.echoID:
-					singleSlack[e.id]++
 				case e.kind == "invalid":
 					singleSlack["null"]++
+					if e.id != "" && e.id != "null" {
+						singleSlack[e.id]++
+					}
 				}
 			case len(f.entries) == 0:
 				singleSlack["null"]++ // "empty batch" error object
@@ -610,8 +628,8 @@ func TestVerifC49Conn(t *testing.T) {
 			if w.array {
 				owner := -1
 				for _, o := range w.objs {
-					if o.id == "null" {
-						continue
+					if o.id == "null" || o.id[0] == '{' || o.id[0] == '[' {
+						continue // null and echoed non-scalar ids of invalid entries do not name a frame
 					}
 					fi, ok := batchOfID[o.id]
 					if !ok {
@@ -811,7 +829,9 @@ func TestVerifC49HTTP(t *testing.T) {
 		f := &c49Frame{}
 		switch rapid.SampledFrom([]string{"single", "batch", "batch", "batch", "batch", "empty"}).Draw(rt, "frameShape") {
 		case "single":
+			g.single = true
 			f.entries = []c49Entry{g.genEntry(rt, ids, false, "")}
+			g.single = false
 		case "batch":
 			f.batch = true
 			n := rapid.IntRange(1, 20).Draw(rt, "batchLen")
@@ -822,6 +842,12 @@ func TestVerifC49HTTP(t *testing.T) {
 			f.batch = true
 		}
 		f.render()
+		if hasTimeout && !f.batch && f.entries[0].kind == "notif" && vs.Known("TestVerifC49HTTP", "single-notification-timeout") {
+			// known finding (notes/C49.md): the timeout callback of handleNonBatchCall answers
+			// notifications. Excluded by construction: single notifications run without timeout.
+			hasTimeout = false
+			st.Excluded()
+		}
 		// timeout: drawn around the cumulative sleep at a drawn position of the script
 		var timeout time.Duration
 		near := false
@@ -900,7 +926,7 @@ func TestVerifC49HTTP(t *testing.T) {
 					fail("%s must not be answered, got %d writes", e.label, len(writes))
 				}
 			default:
-				if len(writes) > 1 || (len(writes) == 1 && (writes[0].array || !writes[0].objs[0].isErr || (writes[0].objs[0].id != "null" && !(e.echoID && writes[0].objs[0].id == e.id)))) {
+				if len(writes) > 1 || (len(writes) == 1 && (writes[0].array || !writes[0].objs[0].isErr || (writes[0].objs[0].id != "null" && writes[0].objs[0].id != e.id))) {
 					fail("invalid message: expected at most one error object with null or echoed id")
 				}
 			}
@@ -967,4 +993,21 @@ func TestVerifC49HTTP(t *testing.T) {
 				"timed_out": timedOut, "answered": answered, "too_large": tooLarge, "itemLimit": itemLimit, "sizeLimit": sizeLimit}
 		})
 	})
+}
+
+// TestVerifX49FindingNotificationTimeout is the minimal deterministic form of the finding
+// "a single notification that outlives the request timeout is answered with an error
+// object" (not part of the C49 run regex; see notes/C49.md).
+func TestVerifX49FindingNotificationTimeout(t *testing.T) {
+	c49Quiet()
+	server := newTestServer()
+	defer server.Stop()
+	ctx := context.WithValue(context.Background(), http.ServerContextKey, &http.Server{WriteTimeout: 101 * time.Millisecond}) // request timeout 1ms
+	req := httptest.NewRequest(http.MethodPost, "/", strings.NewReader(`{"jsonrpc":"2.0","method":"test_sleep","params":[30000000]}`)).WithContext(ctx)
+	req.Header.Set("content-type", "application/json")
+	rw := &c49RespWriter{hdr: http.Header{}}
+	server.ServeHTTP(rw, req)
+	for _, w := range rw.writes {
+		t.Errorf("notification was answered: %s", w)
+	}
 }
